@@ -9,7 +9,7 @@ pub mod sim;
 
 use simcore::{CheckSpec, Part};
 
-pub const PROPERTIES: &[&str] = &["C39"];
+pub const PROPERTIES: &[&str] = &["C39", "C19"];
 
 pub fn registry(property: &str) -> Option<CheckSpec> {
     match property {
@@ -26,6 +26,16 @@ pub fn registry(property: &str) -> Option<CheckSpec> {
                 "a trade is 'counted' when the documented rules say so: the order succeeded, the cluster time is inside [start_time, end_time], a trade event of that trader is attached and the (absolute / increase-only) change of size_in_usd is non-zero".into(),
                 "totals saturate at u128::MAX (big-integer sum clamped), as the program documents with saturating_add".into(),
                 "the store side of the callback is forged (callback-authority PDA flagged as signer, trade-event account written directly); the `competition_real_store` part checks on real orders that the forged instruction and event equal what gmsol_store sends".into(),
+            ],
+        }),
+        "C19" => Some(CheckSpec {
+            property: "C19",
+            level: "fault_enumeration",
+            parts: vec![Part::with_cap(sim::CompetitionSim, 50_000, 600_000, (300, 2400))],
+            assumptions: vec![
+                "competition program only: callbacks (on_created / on_updated / on_executed / on_closed) require the store's callback-authority PDA as signer, close_participant requires the trader as signer; initialize_competition and create_participant_idempotent need no privilege by design and get no twin".into(),
+                "every landed callback delivery / close_participant of the forged-callback scenario is re-tried on a fork of its pre-state by (a) the same accounts with the authority not flagged as signer, (b) a stranger key signing in place of the authority, (c) another trader signing close_participant (owner unsigned / substituted as owner); a twin may only succeed outside the competition window and then must leave the competition and participant accounts byte-identical".into(),
+                "signatures are flags on the account metas (chainsim does not verify ed25519 signatures); the fee payer of a twin is an unrelated funded key".into(),
             ],
         }),
         _ => None,
